@@ -94,6 +94,7 @@ type Exec struct {
 	curFrame *frame
 	funcs    map[string]int
 	lit      map[*Term]bool
+	floatTexts []floatText
 }
 
 func (x *Exec) unsupported(msg string) {
@@ -310,6 +311,14 @@ func (x *Exec) pick(kind string, n int) int {
 
 // concretize forks over the values of t in [lo, hi); returns -1 for "outside".
 func (x *Exec) concretize(t *Term, lo, hi int, signed bool, kind string) int {
+	v, ok := x.concretizeOK(t, lo, hi, signed, kind)
+	if !ok {
+		return -1
+	}
+	return v
+}
+
+func (x *Exec) concretizeOK(t *Term, lo, hi int, signed bool, kind string) (int, bool) {
 	if t.IsConst() {
 		var v int64
 		if signed {
@@ -317,13 +326,13 @@ func (x *Exec) concretize(t *Term, lo, hi int, signed bool, kind string) int {
 		} else {
 			v = int64(t.C)
 			if t.C > 1<<62 {
-				return -1
+				return 0, false
 			}
 		}
 		if v < int64(lo) || v >= int64(hi) {
-			return -1
+			return 0, false
 		}
-		return int(v)
+		return int(v), true
 	}
 	if hi-lo > 300 {
 		x.unsupported(fmt.Sprintf("concretize range too large (%d) in %s", hi-lo, kind))
@@ -341,9 +350,9 @@ func (x *Exec) concretize(t *Term, lo, hi int, signed bool, kind string) int {
 	conds = append(conds, x.ts.Not(in))
 	r := x.choose(kind, conds, true)
 	if r == hi-lo {
-		return -1
+		return 0, false
 	}
-	return lo + r
+	return lo + r, true
 }
 
 // ---- assertions ----
